@@ -10,8 +10,8 @@ package internal
 // hence no harness-made happens-before edges).
 
 import (
-	"os/user"
 	"io"
+	"os/user"
 
 	"encoding/json"
 	"fmt"
